@@ -536,6 +536,35 @@ pub fn run_c14(cfg: &Cfg) {
             }
             _ => s.violation("C14", "builds-differ", &[("pattern", p.clone()), ("detail", format!("option: {} inline: {}", b1.answer, b2.answer))]),
         }
+        // the last call of a setter wins, and a builder can be built from more than once
+        if i % 4 == 1 {
+            let plain = Regex::new(p);
+            let mut bb = RegexBuilder::new(p);
+            bb.case_insensitive(true);
+            let first = bb.build();
+            bb.case_insensitive(false);
+            let second = bb.build();
+            let mut bc = RegexBuilder::new(p);
+            bc.case_insensitive(false).case_insensitive(true);
+            let third = bc.build();
+            if let (Ok(x), Ok(y), Ok(f), Ok(th)) = (&plain, &second, &first, &third) {
+                for t in txts.iter().take(40) {
+                    let a = x.captures(t).ok().flatten().map(|c| show_captures(&c));
+                    let b = y.captures(t).ok().flatten().map(|c| show_captures(&c));
+                    let c1 = f.captures(t).ok().flatten().map(|c| show_captures(&c));
+                    let c3 = th.captures(t).ok().flatten().map(|c| show_captures(&c));
+                    s.count("builder_reuse_cases");
+                    if a != b {
+                        s.violation("C14", "option-not-inert", &[("pattern", p.clone()), ("text", t.clone()), ("detail", format!("case_insensitive(true) then (false): {:?} vs Regex::new {:?}", b, a))]);
+                    }
+                    if c1 != c3 {
+                        s.violation("C14", "option-not-inert", &[("pattern", p.clone()), ("text", t.clone()), ("detail", format!("case_insensitive(true): {:?} vs (false) then (true): {:?}", c1, c3))]);
+                    }
+                }
+            } else if plain.is_ok() != second.is_ok() {
+                s.violation("C14", "option-not-inert", &[("pattern", p.clone()), ("detail", "case_insensitive(true) then (false): builds differ from Regex::new".to_string())]);
+            }
+        }
         // no option changes results otherwise: explicit defaults = Regex::new
         if i % 4 == 0 {
             let plain = Regex::new(p);
@@ -678,9 +707,13 @@ pub fn run_c18(cfg: &Cfg) {
             if need < 200 {
                 continue;
             }
+            // two limits: just above what one search needs (must succeed everywhere) and half of it (must report the
+            // limit everywhere — also through clones, which carry the options with them)
+            for lim in [(need + need / 2) as usize, (need / 2) as usize] {
             let mut b = RegexBuilder::new(p);
-            b.backtrack_limit((need + need / 2) as usize);
+            b.backtrack_limit(lim);
             let re = Arc::new(b.build().unwrap());
+            let single = re.is_match(t).map_err(|e| error_name(&e));
             let nthreads = 8;
             let barrier = Arc::new(std::sync::Barrier::new(nthreads));
             let mut hs = Vec::new();
@@ -712,6 +745,7 @@ pub fn run_c18(cfg: &Cfg) {
                 } else {
                     s.violation("C18", "panic", &[("pattern", p.to_string())]);
                 }
+            }
             }
         }
     }
